@@ -5,6 +5,7 @@ use chunk_io::ChunkDeserializationError;
 use messages::MessagePayload;
 use std::cmp::min;
 use std::collections::HashMap;
+use std::io;
 use std::io::Cursor;
 use std::mem;
 
@@ -377,7 +378,18 @@ impl ChunkDeserializer {
         // received so far is tracked per chunk stream
         let csid = self.current_header.chunk_stream_id;
         let current_payload_length = self.partial_payloads.get(&csid).map_or(0, |x| x.len());
-        let remaining_bytes = self.current_header.message_length as usize - current_payload_length;
+        let remaining_bytes = match (self.current_header.message_length as usize)
+            .checked_sub(current_payload_length)
+        {
+            Some(x) => x,
+            None => {
+                // The peer changed the message's length to less than what it already sent of it
+                return Err(ChunkDeserializationError::Io(io::Error::new(
+                    io::ErrorKind::InvalidData,
+                    "Chunk header announces a message shorter than the payload already received",
+                )));
+            }
+        };
 
         // A chunk never carries more than what is still missing of its message, even if the
         // max chunk size was raised after the message's first chunks were received
